@@ -370,6 +370,9 @@ func init() {
 					if strings.Contains(v.Sig, "main_exited") || strings.Contains(v.Sig, "main_did_not_stop") {
 						out.Viol = append(out.Viol, Violation{Class: "exit", Sig: "exit/main", Detail: "hostile-log script against the assembled service: " + v.Detail})
 					}
+					if strings.Contains(v.Sig, "blocked_goroutines_at_end") || strings.Contains(v.Sig, "read_failed") || strings.Contains(v.Sig, "never_distributed") {
+						out.Viol = append(out.Viol, Violation{Class: "hang", Sig: "hang/service/" + v.Sig, Detail: "hostile-log script against the assembled service: " + v.Detail})
+					}
 				}
 				out.Stats.Probes["main_level_hostile_scripts"]++
 				out.Distinct = []string{"main/" + p.Cfg.Notes["feeders"] + "/" + fmt.Sprint(len(p.Ops))}
